@@ -482,7 +482,10 @@ fn alt_indent(s: &str) -> String {
 pub fn c08_oracle(ctx: &mut Ctx, t: &str, o: &Opt, lines: &Option<Vec<LineOut>>) {
     let Some(ls) = lines else { return };
     if ls.is_empty() {
-        ctx.fail("at least one line", call("wrap", t, o), None);
+        // a custom algorithm that returns no line for no words ('E') may leave nothing at all
+        if o.alg != 'E' {
+            ctx.fail("at least one line", call("wrap", t, o), None);
+        }
         return;
     }
     for (k, l) in ls.iter().enumerate() {
@@ -516,9 +519,9 @@ pub fn c08_oracle(ctx: &mut Ctx, t: &str, o: &Opt, lines: &Option<Vec<LineOut>>)
 /// what is exercised)
 fn custom_alg_input(rng: &mut Rng) -> (String, Opt) {
     let (t, mut o) = wrap_input(rng, false);
-    // a custom algorithm, a custom separator, or both ('E', which returns no line for an empty
-    // paragraph, is used by C20 only: "at least one line" is then the algorithm's choice)
-    let algs = &crate::opt::CUSTOM_ALGS[..4];
+    // a custom algorithm, a custom separator, or both ('E' returns no line for an empty paragraph:
+    // "at least one line" is then the algorithm's choice, the indent rule is not)
+    let algs = &crate::opt::CUSTOM_ALGS[..];
     match rng.below(3) {
         0 => o.alg = *rng.pick(algs),
         1 => o.sep = 'x',
@@ -533,6 +536,8 @@ fn custom_alg_input(rng: &mut Rng) -> (String, Opt) {
 }
 
 fn finish_custom(rng: &mut Rng, t: String, mut o: Opt) -> (String, Opt) {
+    // one time in four the text starts with one or two line endings (empty leading paragraphs)
+    let t = if rng.chance(1, 4) { format!("{}{}", o.ending().repeat(1 + rng.below(2)), t) } else { t };
     o.ii = gen::indent(rng);
     o.si = gen::indent(rng);
     if rng.chance(1, 3) {
@@ -1088,9 +1093,9 @@ pub fn c15(ctx: &mut Ctx) {
         let (opn, _) = op_nel(s);
         ctx.case(opn, format!("NonEmptyLines({})", show(s)));
     }
-    for _ in 0..ctx.n(20000, 400_000) {
-        let mut t = gen::any_text(&mut ctx.rng);
-        if ctx.rng.chance(1, 2) {
+    for k in 0..ctx.n(20000, 400_000) {
+        let mut t = if k % 3 == 0 { gen::comment_block(&mut ctx.rng) } else { gen::any_text(&mut ctx.rng) };
+        if k % 3 != 0 && ctx.rng.chance(1, 2) {
             t = t.replace("a", "> ").replace("b", "- ");
         }
         let (opu, u) = op_unfill(&t);
